@@ -965,7 +965,115 @@ def p_gcp(genc, M6, op, seed=0):
     return not msgs, "; ".join(msgs) if msgs else "gcp ok"
 
 
-PREDICATES = {"op": p_op, "roundtrip": p_roundtrip, "views": p_views, "rotate": p_rotate, "gcp": p_gcp}
+# ---- sequences of view operations: everything judged against plain 3x3 matrix products
+def m3(c6):
+    a, b, c, d, e, f = (F(v) for v in c6)
+    return ((a, b, c), (d, e, f), (F(0), F(0), F(1)))
+
+
+def m3_mul(A, B):
+    return tuple(tuple(sum(A[i][k] * B[k][j] for k in range(3)) for j in range(3)) for i in range(3))
+
+
+def m3_inv(A):
+    (a, b, c), (d, e, f), _ = A
+    det = a * e - b * d
+    ra, rb, rd, re = e / det, -b / det, -d / det, a / det
+    return ((ra, rb, -c * ra - f * rb), (rd, re, -c * rd - f * re), (F(0), F(0), F(1)))
+
+
+def m3_app(A, p):
+    return (A[0][0] * p[0] + A[0][1] * p[1] + A[0][2], A[1][0] * p[0] + A[1][1] * p[1] + A[1][2])
+
+
+def m3_of_map(pmap):
+    """3x3 matrix of an affine pixel map given as a function (the documented contract of one operation)"""
+    o, ex, ey = pmap((F(0), F(0))), pmap((F(1), F(0))), pmap((F(0), F(1)))
+    return ((ex[0] - o[0], ey[0] - o[0], o[0]), (ex[1] - o[1], ey[1] - o[1], o[1]), (F(0), F(0), F(1)))
+
+
+SEQ_OPS_GCP = GCP_OPS
+SEQ_OPS_LINEAR = GCP_OPS + ("crop", "translate_pix", "flipx", "flipy", "left", "right", "top", "bottom", "mul",
+                            "scaled_down")
+
+
+def p_seq(kind, genc, M6, ops, seed=0):
+    """a SEQUENCE of view operations on a GCP geobox whose control points are exactly affinely related
+    by M (kind 'gcp': fit instantiated by the affine map; kind 'gcp-fit': the real Poly2d least-squares
+    fit, compared within a stated bound) or on the linear GeoBox with transform M*A0 (kind 'linear'):
+    pix2wld must be M @ A0 @ V1 @ ... @ Vk with Vi the 3x3 matrix of operation i's documented pixel
+    contract, wld2pix its inverse, and wld2pix(pix2wld(p)) == p"""
+    import random
+    from affine import Affine
+    from odc.geo.geobox import GeoBox
+    rng = random.Random(seed)
+    Mq = [F(v) for v in M6]
+    A0 = [F(v) for v in genc["affine"]]
+    if kind == "linear":
+        T0 = m3_mul(m3(Mq), m3(A0))
+        c0 = [T0[0][0], T0[0][1], T0[0][2], T0[1][0], T0[1][1], T0[1][2]]
+        if not all_small(c0):
+            return True, "outside the exactness domain"
+        g = GeoBox(tuple(genc["shape"]), Affine(*[float(v) for v in c0]), genc["crs"])
+        T = T0
+    else:
+        g = mk_gcp(genc, M6, oracle="affine" if kind == "gcp" else "poly")
+        T = m3_mul(m3(Mq), m3(A0))
+    g0 = g
+    shape = (int(g.shape[0]), int(g.shape[1]))
+    msgs = []
+    for op in ops:
+        exp = expected_contract(g, op)
+        if exp is None or exp[1] is None or exp[2] is not None or not op_exact(g, op):
+            return True, f"outside the property's domain at {op}"
+        eshape, pmap, _ = exp
+        g = apply_op(g, op)
+        T = m3_mul(T, m3_of_map(pmap))
+        shape = tuple(eshape)
+        if (int(g.shape[0]), int(g.shape[1])) != shape:
+            msgs.append(f"after {op}: shape {tuple(g.shape)} expected {shape}")
+            break
+        if min(shape) < 1:
+            return True, "empty view"
+    if tag_of(g.crs) != tag_of(g0.crs) or (g.crs is None) != (g0.crs is None):
+        msgs.append(f"crs changed: {g0.crs} -> {g.crs}")
+    if kind != "linear" and g._mapping is not g0._mapping:
+        msgs.append("mapping not shared with the original")
+    det = T[0][0] * T[1][1] - T[0][1] * T[1][0]
+    if det == 0 or msgs:
+        return not msgs, "; ".join(msgs) if msgs else "singular view"
+    Ti = m3_inv(T)
+    flat = [v for row in T[:2] for v in row] + [v for row in Ti[:2] for v in row]
+    exact = kind != "gcp-fit" and all_small(flat) and pow2(det) and \
+        pow2(Mq[0] * Mq[4] - Mq[1] * Mq[3]) and all_small(inverse_exact(Mq))
+    scale = 1 + max(abs(v) for v in flat)
+
+    def close(u, v, what):
+        bound = F(0) if exact else (F(1, 10 ** 9) if kind != "gcp-fit" else F(1, 10 ** 5)) * scale * (1 + abs(v[0]) + abs(v[1]))
+        if abs(u[0] - v[0]) > bound or abs(u[1] - v[1]) > bound:
+            msgs.append(f"{what}: got ({float(u[0])!r}, {float(u[1])!r}) expected ({float(v[0])!r}, {float(v[1])!r})"
+                        f" [{'exact' if exact else 'bound ' + format(float(bound), '.3g')}]")
+            return False
+        return True
+
+    for p in sample_pixels(rng, shape[0], shape[1], 3):
+        w = m3_app(T, p)
+        if not all_small(p + w):
+            continue
+        got = g.pix2wld(float(p[0]), float(p[1]))
+        if not close((F(float(got[0])), F(float(got[1]))), w, f"pix2wld{tuple(map(str, p))} vs M@V"):
+            break
+        back = g.wld2pix(float(w[0]), float(w[1]))
+        if not close((F(float(back[0])), F(float(back[1]))), p, f"wld2pix{tuple(map(str, w))} vs inv(M@V)"):
+            break
+        rt = g.wld2pix(*got)
+        if not close((F(float(rt[0])), F(float(rt[1]))), p, f"wld2pix(pix2wld{tuple(map(str, p))})"):
+            break
+    return not msgs, "; ".join(msgs) if msgs else f"sequence ok: view {enc_gb(g)}"
+
+
+
+PREDICATES = {"op": p_op, "roundtrip": p_roundtrip, "views": p_views, "rotate": p_rotate, "gcp": p_gcp, "seq": p_seq}
 
 
 def call_pred(name, args):
@@ -979,6 +1087,8 @@ def call_pred(name, args):
         return p_rotate(args["geobox"], args["deg"])
     if name == "gcp":
         return p_gcp(args["geobox"], args["M"], args["op"], args.get("seed", 0))
+    if name == "seq":
+        return p_seq(args["kind"], args["geobox"], args["M"], args["ops"], args.get("seed", 0))
     raise ValueError(name)
 
 
@@ -1076,6 +1186,54 @@ def search(out, tier):
             if op is not None and (op[0] not in GCP_OPS or not op_exact(gp, op)):
                 continue
             run("gcp", {"geobox": e, "M": [fs(v) for v in M6], "op": op, "seed": k})
+
+    # SEQUENCES of 2-3 view operations (single operations keep scale or translation trivial): GCP boxes with
+    # exactly affine control points (north-up, rotated+mirrored, sheared maps; crs present / None) and the
+    # linear boxes with the same total transform
+    MAPS = [["2", "0", "100", "0", "-2", "500"], ["0", "-2", "40", "-2", "0", "-24"], ["1", "1/2", "-16", "0", "-1", "8"],
+            ["3", "-4", "10", "4", "3", "-2"], ["-1/2", "0", "3", "0", "1/4", "-4"]]
+    for mi, M in enumerate(MAPS):
+        for ny, nx in [(6, 9), (1, 8), (8, 1)][: 3 if mi < 3 else 1]:
+            crs = [None, "epsg:4326", "epsg:3857"][(mi + ny) % 3]
+            e = {"shape": [ny, nx], "affine": ["1", "0", "0", "0", "1", "0"], "crs": crs}
+            unit = [["zoom_out", "2"], ["zoom_out", "1/2"], ["zoom_out", "4"], ["pad", 1, None], ["pad", 2, 1],
+                    ["getitem", enc_sl((slice(min(1, ny - 1), None), slice(min(2, nx - 1), None)))],
+                    ["getitem", enc_sl((slice(-2, None), slice(None, -1) if nx > 1 else slice(None)))],
+                    ["zoom_to_shape", 2 * ny, 4 * nx], ["pad_wh", 4, 3], ["center_pixel"], ["zoom_to_n", "4"]]
+            seqs = [[a, b] for a in unit for b in unit if a is not b]
+            seqs += [[a, b, c] for a, b, c in (rng.sample(unit, 3) for _ in range(12))]
+            if tier == "quick" and (mi >= 3 or ny == 1 or nx == 1):
+                seqs = rng.sample(seqs, 40)
+            for q in seqs:
+                run("seq", {"kind": "gcp", "geobox": e, "M": M, "ops": q, "seed": mi})
+                if mi < 3 and len(q) == 2 and q[0][0] != q[1][0]:
+                    run("seq", {"kind": "gcp-fit", "geobox": e, "M": M, "ops": q, "seed": mi})
+                run("seq", {"kind": "linear", "geobox": e, "M": M, "ops": q, "seed": mi})
+    for k in range(150 if tier == "quick" else 1500):
+        e, _ = gen_gbox_enc(rng)
+        e["affine"] = [fs(v) for v in (gen_small_affine(rng) if k % 3 == 0 else [1, 0, 0, 0, 1, 0])]
+        M6 = [fs(v) for v in gen_affine(rng)[0]]
+        kind = "gcp" if k % 2 == 0 else "linear"
+        names = SEQ_OPS_GCP if kind == "gcp" else SEQ_OPS_LINEAR
+        g = mk_gcp(e, M6, oracle="affine")          # generation only: shapes of the intermediate views
+        q = []
+        for _ in range(rng.randint(2, 3)):
+            op = None
+            for _try in range(8):
+                op = gen_op(rng, g)
+                if op is not None and op[0] in names and op_exact(g, op) and expected_contract(g, op) is not None \
+                        and expected_contract(g, op)[1] is not None:
+                    break
+                op = None
+            if op is None:
+                break
+            g2 = apply_op(g, op) if op[0] in GCP_OPS else None
+            q.append(op)
+            if g2 is None or min(g2.shape) < 1 or max(g2.shape) > 60 or not all_small(a6(g2._affine)):
+                break
+            g = g2
+        if len(q) >= 2:
+            run("seq", {"kind": kind, "geobox": e, "M": M6, "ops": q, "seed": k})
 
 
 # ---------------------------------------------------------------- entry points
